@@ -263,8 +263,8 @@ func (c *c14Chart) own() string {
 
 func (c *c14Chart) build(version string) *chart.Chart {
 	ch := &chart.Chart{
-		Metadata:  &chart.Metadata{APIVersion: "v2", Name: c.own(), Version: version},
-		Values:    deepCopyVal(c.Defaults).(map[string]interface{}),
+		Metadata: &chart.Metadata{APIVersion: "v2", Name: c.own(), Version: version},
+		Values:   deepCopyVal(c.Defaults).(map[string]interface{}),
 		// (the object's name comes from the template's path: a chart declared twice is rendered twice from one file)
 		Templates: []*chart.File{{Name: "templates/cm.yaml", Data: []byte("apiVersion: v1\nkind: ConfigMap\nmetadata:\n  name: cm-{{ .Template.BasePath | sha256sum | trunc 12 }}\ndata:\n  chart: " + c.Name + "\n  v: {{ toJson .Values | quote }}\n")}},
 	}
